@@ -356,21 +356,32 @@ Definition qprod (l : list Q) : Q := fold_right Qmult 1 l.
 Definition mk_dspace (axes : list axisd) (ts : tspace) : res dspace :=
   if shape_eqb (map ax_n axes) (ts_shape ts) then Ok (mkDS axes ts) else Err EValue.
 
-(* self.space.byaxis_in[kept].astype(dtype) -- constant weightings only
-   (array weightings: tag 0 = not modelled, not compared) *)
-Definition byaxis_astype (ds : dspace) (kept : list nat) (d : dt) : dspace :=
+(* self.space.byaxis_in[kept].astype(dtype).
+   Constant weighting: the cell volume of the kept axes.
+   Array weighting: tspace.byaxis[kept] fancy-indexes the weight array ALONG AXIS 0
+   with the list of kept axes (IndexError if an axis number exceeds the first
+   extent) and the new tensor space then insists on the array having the new
+   shape (ValueError otherwise) -- so reduce fails on array-weighted
+   discretized spaces except in degenerate cases (finding
+   discr-reduce-array-weighting). *)
+Definition byaxis_astype (ds : dspace) (kept : list nat) (d : dt) : res dspace :=
   let axes := pick dummy_ax (ds_axes ds) kept in
   let shape := pick 0%nat (ts_shape (ds_ts ds)) kept in
   let sp := ds_ts ds in
-  let w := match ts_w sp with
-           | WConst _ => WConst (qprod (map ax_cell axes))
-           | WArr _ wd => WArr 0 wd
-           end in
-  let ts0 := mkTS shape (ts_dt sp) w (ts_exp sp) in
-  let ts := if dt_eqb d (ts_dt sp) then ts0
-            else if is_floating d then mkTS shape d w (ts_exp sp)
-            else ts_default shape d in
-  mkDS axes ts.
+  let finish (w : wgt) :=
+    let ts0 := mkTS shape (ts_dt sp) w (ts_exp sp) in
+    let ts := if dt_eqb d (ts_dt sp) then ts0
+              else if is_floating d then mkTS shape d w (ts_exp sp)
+              else ts_default shape d in
+    if ts_valid ts then Ok (mkDS axes ts) else Err EValue in
+  match ts_w sp with
+  | WConst _ => finish (WConst (qprod (map ax_cell axes)))
+  | WArr _ wd =>
+      let n0 := match ts_shape sp with n :: _ => n | [] => 0%nat end in
+      if existsb (fun i => (n0 <=? i)%nat) kept then Err EIndex
+      else if negb (shape_eqb (length kept :: tl (ts_shape sp)) shape) then Err EValue
+      else finish (WArr 0 wd)
+  end.
 
 (* labels of outer: old labels with a suffix; encoded as label + 100 / + 200 *)
 Definition relabel (k : nat) (a : axisd) : axisd :=
@@ -471,7 +482,9 @@ Definition disc_ufunc (NP : npsem) (st : store) (ds : dspace) (nout : nat) (m : 
                       | _ => Err EValue       (* inp1, inp2 = inputs *)
                       end
                   | MReduce =>
-                      let rs' := byaxis_astype ds kept (ts_dt rsp) in
+                      match byaxis_astype ds kept (ts_dt rsp) with
+                      | Err e => Err e
+                      | Ok rs' =>
                       (* res_space.element(res_tens): shapes must agree -- after
                          np.array(..., ndmin=ndim) has prepended unit axes, in which
                          case the element is a reshaped view of the result buffer *)
@@ -480,6 +493,7 @@ Definition disc_ufunc (NP : npsem) (st : store) (ds : dspace) (nout : nat) (m : 
                       else if shape_eqb (repeat 1%nat (length target - length (ts_shape rsp)) ++ ts_shape rsp) target
                       then Ok ([OpDisc rs' id], wr st' id (mkArr (a_dt (rd st' id)) target (a_data (rd st' id))))
                       else Err EValue
+                      end
                   | _ => Err ERuntime
                   end
               | None, _ => Err EUnmodelled
